@@ -273,3 +273,26 @@ Definition keys_inter {K V W : Type} (eqb : K -> K -> bool) (d1 : list (K * V)) 
 
 (* a non-negative counter held as N, incremented by an int *)
 Definition N_plus_Z (n : N) (z : Z) : N := Z.to_N (Z.of_N n + z).
+
+(* a generator's `for` whose body calls a generated function with a res result: an abnormal result
+   of the body is the result of the loop *)
+Fixpoint run_for_r {S A B : Type} (body : S -> A -> res (list B * S * ctl)) (post : S -> list B)
+         (s : S) (xs : list A) : res (list B) :=
+  match xs with
+  | [] => RDone (post s)
+  | x :: r =>
+    match body s x with
+    | RDone (out, s', c) =>
+      match c with
+      | Cont => match run_for_r body post s' r with
+                | RDone l => RDone (out ++ l)
+                | e => e
+                end
+      | Brk => RDone (out ++ post s')
+      | Ret => RDone out
+      end
+    | RRaise e => RRaise e
+    | RFuel => RFuel
+    | RSkip => RSkip
+    end
+  end.
